@@ -84,8 +84,20 @@ class BodyFlow:
 
     # ------------------------------------------------------------------ reference roots
     def root_of_place(self, place, depth=0):
-        """resolve a place to (root_local, [field names...]) following single-def reference temps.
-        root_local is an argument (<= argc) or a local that is not a plain reborrow."""
+        """resolve a place to (root_local, [field names...]) following single-def reference temps and fields of locally built
+        closure environments / tuples (`_c = {closure}(a, b); (_c.1)` is b)."""
+        r, p = self._root_of_place_raw(place, depth)
+        n = 0
+        while p and isinstance(p[0], str) and p[0].isdigit() and (r > self.body.argc or r == 0) and n < 8:
+            n += 1
+            rv = self.single_rvalue(r)
+            if rv is None or rv.k != 'agg' or rv.d.get('ak') not in ('closure', 'tuple') or int(p[0]) >= len(rv.ops) or rv.ops[int(p[0])].place is None:
+                break
+            r2, p2 = self._root_of_place_raw(rv.ops[int(p[0])].place, depth + 1)
+            r, p = r2, p2 + p[1:]
+        return r, p
+
+    def _root_of_place_raw(self, place, depth=0):
         path = []
         local = place.local
         for e in place.proj:
@@ -101,13 +113,13 @@ class BodyFlow:
             rv = self.single_rvalue(local)
             if rv is not None:
                 if rv.k in ('ref', 'rawptr'):
-                    r, p = self.root_of_place(rv.place, depth + 1)
+                    r, p = self._root_of_place_raw(rv.place, depth + 1)
                     return r, p + path
                 if rv.k == 'use' and rv.ops[0].place is not None:
-                    r, p = self.root_of_place(rv.ops[0].place, depth + 1)
+                    r, p = self._root_of_place_raw(rv.ops[0].place, depth + 1)
                     return r, p + path
                 if rv.k == 'cast' and rv.ops[0].place is not None:
-                    r, p = self.root_of_place(rv.ops[0].place, depth + 1)
+                    r, p = self._root_of_place_raw(rv.ops[0].place, depth + 1)
                     return r, p + path
             else:
                 d = self.single_def(local)
@@ -121,7 +133,7 @@ class BodyFlow:
                         for a in t.args:
                             aty = a.ty or ''
                             if a.place is not None and (aty.startswith('&') or aty.startswith('core::pin::Pin<&')):
-                                r, p = self.root_of_place(a.place, depth + 1)
+                                r, p = self._root_of_place_raw(a.place, depth + 1)
                                 return r, p + ['()'] + path
         return local, path
 
@@ -544,6 +556,8 @@ def _term_place(bf, place, depth, seen):
                 base = dict(base[2])[nm]
             elif base[0] == 'tuple' and e['f'] < len(base[1]):
                 base = base[1][e['f']]
+            elif base[0] == 'closure' and len(base) == 3 and isinstance(base[2], tuple) and e['f'] < len(base[2]):
+                base = base[2][e['f']]      # a capture read back from a closure environment built in this body
             else:
                 base = ('field', base, nm)
         elif 'i' in e:
